@@ -14,6 +14,16 @@ CHECKS = {
    "Exhaustive within stated alphabets: every i32 code, every id string of length <=3 (thorough 4) over a 20-symbol adversarial alphabet, every sequence of <=5 (thorough 6) response members out of 16; round-trip identity and a reference acceptor are evaluated on every case. Right level because the property is a pure function of finite-alphabet inputs, so enumeration decides it within the bound.",
    "Trusts serde_json as JSON layer on both sides; values outside the alphabets are not covered; `null` params / error data are identified with absent (Option) as the library's data model does.",
    "DESIGN.md §6 C15"),
+ "C16": ("exploration", "ENUM",
+   "bounded-exhaustive enumeration of params texts x typed read scripts against serde_json's own parse of the element texts",
+   "Exhaustive within the alphabet: all arrays of <=3 elements over 17 element texts with whitespace from {none, space, tab-newline} at every token gap (bounded number of non-empty gaps for 3 elements), plus objects/scalars/absent, crossed with all read scripts of length <=3 (thorough 4) over five typed reads; every read is compared with the reference and every failure must be -32602; panics are caught.",
+   "Trusts serde_json for the reference parse of individual element texts; element texts outside the 17-member alphabet are not covered.",
+   "DESIGN.md §6 C16"),
+ "C20": ("exploration", "ENUM+HIST",
+   "bounded-exhaustive enumeration of insert histories (incl. Serialize impls failing before / midway) against serde_json::to_value and a pair-preserving parse",
+   "Exhaustive within the alphabet: all insert sequences of length <=4 (thorough 5) over 17 value kinds into both builders (3 key schemes incl. duplicate/escaped keys), clones taken mid-history, rpc_params! 0..4 args, tuples of all arities 1..16, slices/arrays/Vec/Map, batch builder 0..3 entries; oracle = valid JSON that parses back to exactly the successfully inserted values; panics are caught.",
+   "Values outside the 17 kinds are not covered; serde_json::to_value is the reference serialisation.",
+   "DESIGN.md §6 C20"),
 }
 
 NOT_BUILT = {}
